@@ -130,6 +130,8 @@ def run_prop(chk, replay, prop):
     for i, sc in enumerate(chosen):
         ndims = 2 if i % 4 == 1 else 3
         style = styles[i % len(styles)] if prop == "C20" else ({"payload": "wild"} if prop == "C03" and i % 2 else {})
+        if prop == "C03" and i % 4 == 2 and not sc["opts"]["coords"]:
+            style = {"ishift": True}          # index spaces that do not start at 0, also far from it (long header lines)
         if prop == "C04" and i % 5 == 4 and not sc["opts"]["coords"]:
             style = {"ishift": True}
         if prop in ("C04", "C20") and one_unit_length_error(sc) and i % 3 != 0:
